@@ -132,7 +132,7 @@ func c08Handle(c *cx) {
 	}
 	c.r.Floor(id, "responseChecker literals", nlit, 1)
 	// element start: the token the handler's start element comes from is read through the same filter
-	okStart := len(hc.Args) == 2 && eng.Glob("&local:start<encoding/xml.StartElement>", f.Norm(hc.Args[1], &hpt))
+	okStart := len(hc.Args) == 2 && eng.Glob("&local:*<encoding/xml.StartElement>", f.Norm(hc.Args[1], &hpt))
 	c.r.Check(id, f, "start element handed to the handler", "P: the handler gets the element's own start tag", hc.Pos(), okStart, "second argument is "+f.Norm(hc.Args[1], &hpt))
 	c.dom(id, f, hc, "handler invoked for start elements only", []string{"istype(encoding/xml.TokenReader.Token[" + sessReader + "]()#0;encoding/xml.StartElement)"})
 	// after the handler: discard the rest and return the discard's error
@@ -208,16 +208,16 @@ func c08Handle(c *cx) {
 		c.r.Check("C08.4", f, "from normalisation value", "K: the attribute value is only ever blanked", w.Stmt.Pos(), okEmpty, "stores "+c.p.NodeStr(w.Stmt))
 		// only the stanza's own (unqualified) from attribute is looked at: a
 		// namespaced x:from must neither be blanked nor end the search
-		c.domAny("C08.4", f, w.Stmt, "from normalisation [unqualified attribute]", []string{"eq(rangeval(*start*.Attr).Name.Space,\"\")"})
+		c.domAny("C08.4", f, w.Stmt, "from normalisation [unqualified attribute]", []string{"eq(rangeval(*.Attr).Name.Space,\"\")"})
 		c.dom("C08.4", f, w.Stmt, "from normalisation", []string{
-			"stanza.Is(*start*.Name,p0.in.XMLNS)",
-			"eq(rangeval(*start*.Attr).Name.Local,\"from\")",
-			"eq(jid.JID.String[jid.JID.Bare[xmpp.Session.LocalAddr[p0]()]()](),rangeval(*start*.Attr).Value)",
+			"stanza.Is(*.Name,p0.in.XMLNS)",
+			"eq(rangeval(*.Attr).Name.Local,\"from\")",
+			"eq(jid.JID.String[jid.JID.Bare[xmpp.Session.LocalAddr[p0]()]()](),rangeval(*.Attr).Value)",
 		})
 		// index agreement: start.Attr[i] with i the range key of the same loop
 		if ix, ok := ast.Unparen(sel.X).(*ast.IndexExpr); ok {
 			pt, _ := g.Where(w.Stmt)
-			c.r.Check("C08.4", f, "from normalisation index", "K: the attribute blanked is the one that was compared", w.Stmt.Pos(), eng.Glob("rangekey(*start*.Attr)", f.Norm(ix.Index, &pt)), "index is "+f.Norm(ix.Index, &pt))
+			c.r.Check("C08.4", f, "from normalisation index", "K: the attribute blanked is the one that was compared", w.Stmt.Pos(), eng.Glob("rangekey(*.Attr)", f.Norm(ix.Index, &pt)), "index is "+f.Norm(ix.Index, &pt))
 		}
 	}
 	c.r.Floor("C08.4", "from normalisation stores", n, 1)
